@@ -35,6 +35,14 @@ def run(ctx):
         per_iteration(ctx, v, ["a3"], Cmp(["a3"], ["field:key"], pass_op="Eq", name="key == proof.key"), "C45.chain.key", "every key must equal its operation's key", must_dominate=False)
         per_iteration(ctx, v, ["a3"], Direct(["ics23::verify::verify_membership", "ics23::verify_membership", "*::verify_membership"]), "C45.chain.ics23", "every level must pass ics23::verify_membership", must_dominate=False)
         per_iteration(ctx, v, ["a3"], Has("call:*get_existence_proof", name="existence proof required"), "C45.chain.existence", "every level needs an existence proof", must_dominate=False)
+        # the chain must be used up: an accepting exit is reached only when no proof operation is left
+        # after the last key (otherwise the last verified root is the *next op's value*, never the
+        # app hash). Accept on `chain.get(idx)` being None, or on chain.len() == / <= the number of
+        # verified levels.
+        from engine.rules import AnyOf, BoolIs, require_guard as _rg
+        _rg(ctx, v, AnyOf(BoolIs(["*Option*::is_some"], False, args=["a1.0"]), BoolIs(["*Option*::is_none"], True, args=["a1.0"]),
+                          Cmp(["len:a1"], [], pass_op="Eq"), Cmp(["len:a1"], [], pass_op="Le"),
+                          name="no proof operation is left unused (chain.get(levels verified) is None)"), "C45.chain.all-used", cut_back_edges=False)
         ics = call_sites_with(ctx, v, ["*::verify_membership"])
         ok = bool(ics) and all(has_all(ctx.leaves(call_expr(v, b)), ["a1.0", "a4"]) and has_leaf(ctx.leaves(call_expr(v, b)), "a2") for b in ics)
         ctx.check(ok, "C45.chain.inputs", v.path, "ics23 verification consumes the chain's proofs, the supplied root and the supplied leaf", key="C45.chain.inputs")
